@@ -22,7 +22,8 @@ RULE = ("family = strategy x series (2..30 points) x n x parameters, with one of
         "non-constant series and a map different from the identity; distinct by case index."
         " Also: changes of unit by 2**+-(20..60) (exact) and 10**+-12 (generic), float32 / float16 averages, a second object of the same class in between."
         " Round-4 classes: power-of-two scales up to the edge of the float range (2**-900 .. 2**+900, as far as every value and jump stays normal)."
-        " Round-6 classes: RuntimeWarnings on the first (ordinary) request are violations (see C04).")
+        " Round-6 classes: RuntimeWarnings on the first (ordinary) request are violations (see C04)."
+        " Round-7 classes: as C05.")
 REQUIRED_MONITORS = ["c07:value_map", "c07:time_map", "c07:locality", "c07:weights"]
 ASSUMPTIONS = ["strategy parameters in the documented ranges; x strictly increasing"]
 NSHARDS = 16
